@@ -52,6 +52,16 @@ def leaf_diffs(old, new):
                 out.append(('op', a.op if isinstance(a, ast.AugAssign) else ast.UAdd(), b.op if isinstance(b, ast.AugAssign) else ast.UAdd(), list(anc) + [(b, 'value')]))
                 return
             raise _Shape()
+        if type(a) is not type(b) and anc and anc[-1][1] in ('defaults', 'kw_defaults') and isinstance(anc[-1][0], ast.arguments):
+            # a default replaced by a value of another kind (`()` by `None`): one token as far as callers are concerned
+            out.append(('const', a, b, list(anc)))
+            return
+        if type(a) is not type(b) and {type(a), type(b)} == {ast.BinOp, ast.Compare}:
+            # `x & M` against `x >= M`: the operator changed its class, the operands stayed
+            cmp_, bin_ = (a, b) if isinstance(a, ast.Compare) else (b, a)
+            if len(cmp_.ops) == 1 and leaf_diffs(cmp_.left, bin_.left) == [] and leaf_diffs(cmp_.comparators[0], bin_.right) == []:
+                out.append(('op', a.ops[0] if a is cmp_ else a.op, b.ops[0] if b is cmp_ else b.op, list(anc)))
+                return
         if type(a) is not type(b):
             # a `not` dropped or added in front of an otherwise identical expression is one token
             for x, y, what in ((a, b, 'not dropped'), (b, a, 'not added')):
@@ -77,6 +87,19 @@ def leaf_diffs(old, new):
                     la, lb = _strip_doc(la), _strip_doc(lb)
                     la = [s for s in la if not isinstance(s, ast.Pass)] if len(la) > 1 else la
                     lb = [s for s in lb if not isinstance(s, ast.Pass)] if len(lb) > 1 else lb
+                if len(la) != len(lb) and f == 'args' and isinstance(a, ast.Call) and abs(len(la) - len(lb)) == 1:
+                    # one argument dropped or added, the others unchanged (`pop(0)` / `pop()`)
+                    long_, short_ = (la, lb) if len(la) > len(lb) else (lb, la)
+                    hit = None
+                    for k_ in range(len(long_)):
+                        rest = long_[:k_] + long_[k_ + 1:]
+                        if all(leaf_diffs(x_, y_) == [] for x_, y_ in zip(rest, short_)):
+                            hit = k_
+                            break
+                    if hit is None:
+                        raise _Shape()
+                    out.append(('arg', long_[hit] if long_ is la else None, long_[hit] if long_ is lb else None, list(anc) + [(b, f)]))
+                    continue
                 if len(la) != len(lb):
                     raise _Shape()
                 for x, y in zip(la, lb):
@@ -211,7 +234,7 @@ def _arith_root(anc):
 
 
 def _message(anc, a, b):
-    if not (isinstance(a, ast.Constant) and isinstance(a.value, (str, bytes)) and isinstance(a.value, type(b.value))):
+    if not (isinstance(a, ast.Constant) and isinstance(b, ast.Constant) and isinstance(a.value, (str, bytes)) and isinstance(a.value, type(b.value))):
         return False
     for n, f in reversed(anc):
         if isinstance(n, ast.BinOp) and isinstance(n.op, ast.Mod) and f == 'left':
@@ -258,6 +281,11 @@ def rule_token(ctx, rid):
         if not diffs:
             r.ok(key, fi.site, 'identical to the confirmed function')
             continue
+        if cur is not fi.node and any(d_[0] == 'arg' for d_ in diffs) and leaf_diffs(old, fi.node) == []:
+            # a call written with one argument fewer or more that the exact pre-passes read as the confirmed call
+            # (`_UINT32.pack(x)` with `_UINT32 = struct.Struct('<I')` is `struct.pack('<I', x)`)
+            r.ok(key, fi.site, 'read as the confirmed function by the pre-passes')
+            continue
         diffs = _without_renames(diffs, old)
         sw = _swapped(diffs, old, cur) if diffs else False
         if sw is True:
@@ -288,7 +316,7 @@ def rule_token(ctx, rid):
                 continue
             tr = _test_root(anc)
             stmt_new = next((n for n, f in reversed(anc) if isinstance(n, ast.stmt)), None)
-            why_ = ctx.explained.get((fi.qualname, getattr(stmt_new, 'lineno', -1)))
+            why_ = ctx.explained.get((fi.qualname, getattr(stmt_new, 'lineno', -1), None)) or ctx.explained.get((fi.qualname, getattr(stmt_new, 'lineno', -1), _default_of(anc, a, b)))
             if why_:
                 r.ok(k2, common.site_of(fi, stmt_new), 'decided by a rule of this property: ' + why_)
                 continue
@@ -298,6 +326,11 @@ def rule_token(ctx, rid):
                 mark = '%s:%d %s.%s resolves to object.' % (fi.module.relpath, at_.lineno, b, at_.attr)
                 if any(l_.startswith(mark) for l_ in getattr(ctx.repo, 'desugar_log', []) or []):
                     r.ok(k2, common.site_of(fi, stmt_new), 'resolved by the MRO: ' + mark.split(' ', 1)[1] + 'the same slot')
+                    continue
+            if kind == 'arg':
+                why_arg = _harmless_arg(anc, a, b)
+                if why_arg:
+                    r.ok(k2, common.site_of(fi, stmt_new) if stmt_new is not None else fi.site, why_arg)
                     continue
             if _struct_format(anc, a, b):
                 r.ok(k2, common.site_of(fi, stmt_new) if stmt_new is not None else fi.site, 'with a byte-order prefix the struct codes L/I (and l/i) are the same four-byte field')
@@ -450,6 +483,50 @@ def _copyprop(fn, expr, at):
                 return ast.copy_location(ast.parse(ast.unparse(defs[n.id]), mode='eval').body, n)
             return n
     return ast.fix_missing_locations(S().visit(ast.parse(ast.unparse(expr), mode='eval').body))
+
+
+def _harmless_arg(anc, a, b):
+    """an argument dropped (b None) or added (a None) that says what the call does anyway -> reason or None"""
+    if not anc or not isinstance(anc[-1][0], ast.Call):
+        return None
+    call = anc[-1][0]                      # the call as it stands now
+    arg = a if b is None else b
+    n_now = len(call.args)
+    n_long = n_now + 1 if b is None else n_now
+    fn = ast.unparse(call.func)
+    const = arg.value if isinstance(arg, ast.Constant) else None
+    if call.keywords:
+        return None
+    if fn == 'range' and n_long == 2 and type(const) is int and const == 0:
+        # the dropped/added one must be the first of the two
+        first_now = call.args[0] if call.args else None
+        if (b is None) or (first_now is b):
+            return 'range(0, n) is range(n)'
+    if fn.startswith('ctypes.c_') and n_long == 1 and type(const) is int and const == 0:
+        return 'a ctypes scalar starts at zero'
+    if isinstance(call.func, ast.Attribute) and call.func.attr == 'split' and n_long == 2 and type(const) is int and const >= 1:
+        # x.split(sep, k)[0] is x.split(sep)[0]: the first piece ends at the first separator either way
+        up = anc[-2][0] if len(anc) > 1 else None
+        if isinstance(up, ast.Subscript) and isinstance(up.slice, ast.Constant) and up.slice.value == 0 and type(up.slice.value) is int \
+                and (b is None or (len(call.args) == 2 and call.args[1] is b)):
+            return 'the first piece of a split does not depend on how many later splits are made'
+    return None
+
+
+def _default_of(anc, a, b):
+    """'default:<parameter>' when the leaf is (inside) the default value of a parameter"""
+    for k, (n, f) in enumerate(anc):
+        if isinstance(n, ast.arguments) and f in ('defaults', 'kw_defaults'):
+            top = anc[k + 1][0] if k + 1 < len(anc) else b
+            lst = getattr(n, f)
+            idx = next((i for i, x in enumerate(lst) if x is top), None)
+            if idx is None:
+                return None
+            if f == 'kw_defaults':
+                return 'default:%s' % n.kwonlyargs[idx].arg
+            pos = list(n.posonlyargs) + list(n.args)
+            return 'default:%s' % pos[len(pos) - len(lst) + idx].arg
+    return None
 
 
 def _struct_format(anc, a, b):
@@ -662,9 +739,14 @@ def _raw_function(repo, fi):
 def _show(x):
     if isinstance(x, ast.Constant):
         return repr(x.value)[:30]
+    if isinstance(x, ast.expr):
+        try:
+            return ast.unparse(x)[:30]
+        except Exception:
+            pass
     if isinstance(x, ast.AST):
         return type(x).__name__
-    return str(x)[:30]
+    return 'nothing' if x is None else str(x)[:30]
 
 
 def _counterpart(old_root, new_root, new_node):
